@@ -15,7 +15,8 @@
 //
 // case header:  kind=net n=<nodes> d=<ns> ttl=<ns> refresh=<ns> jit=<ns> mode=fair|chaos id<i>=<enc> ident<i>=<enc> port<i>=<p>
 //               kind=codec
-// ops (net):    adv <ns> | start <i> | tick <i> <label> | stop <i> <label> | crash <i>
+// ops (net):    adv <ns> | start <i> | tick <i> <label> | stop <i> <label> | crash <i> | pubfail <i> [k]
+//               (pubfail: the node's next k Publish calls return an error, then the pubsub is healthy again)
 //               | deliver <label> <i> | inject <i> <enc bytes>
 // ops (codec):  enc <R|U> <enc address> <enc id> | dec <enc message>
 // obs:          adv/start/crash: p=<i>@<enc addr>,<enc addr>;<i>@…   (GetPeers of every running node; "-" if none)
@@ -23,7 +24,10 @@
 //               every p=… is followed by cb=<i>@<list>;…  for the same nodes: the GetPeers() value seen by the
 //               most recent invocation of a callback registered with RegisterUpdatedPeersCallback ("-": never
 //               invoked) — what a subscriber such as the deterministic sharder has loaded
-//               tick/stop: pub=<enc message> | pub=none | noop
+//               tick: pub=<enc message> per=<ns> | pub=failed per=<ns> | pub=notdue | pub=none | noop
+//                     (per = the period the refresh ticker has now: NewTicker's, or the last Reset's;
+//                      notdue = the code has lengthened the period and the ticker would not fire yet)
+//               stop: pub=<enc message> | pub=failed | pub=none | noop
 //               enc: m=<enc marshalled> ok=<0|1> [act=<enc> addr=<enc> id=<enc>]   (unmarshal of the marshalled string)
 //               dec: ok=<0|1> [act= addr= id=]
 // ext:          start: `node <i> = <enc public address> <refresh interval the goroutine asked its ticker for>`
@@ -31,11 +35,14 @@ package main
 
 import (
 	"context"
+	"errors"
 	"fmt"
+	"math/big"
 	"sort"
 	"strconv"
 	"strings"
 	"sync"
+	"sync/atomic"
 	"time"
 
 	"github.com/honeycombio/refinery/config"
@@ -53,11 +60,53 @@ const waitFor = 3 * time.Second
 
 // ---------------------------------------------------------------------------- clock with hand-fired tickers
 
-type mticker struct{ ch chan time.Time }
+// mticker is fired by hand, but it keeps the period the code asked for — at NewTicker and at every
+// Reset — and the instant it was created / last fired / last reset.  A `tick` operation fires it only
+// if it is due: the node's heartbeat schedule (header iv<i>, standing in for the jittered interval the
+// code drew, which the generator cannot know) stretched by  current period / original period.  So a
+// change of the period by the code changes the instants at which the node publishes.
+type mticker struct {
+	ch    chan time.Time
+	fake  *clockwork.FakeClock
+	mu    sync.Mutex
+	orig  time.Duration
+	cur   time.Duration
+	base  time.Time
+	calls atomic.Int64 // evaluations of Chan(): one per entry of the goroutine into its select
+}
 
-func (t *mticker) Chan() <-chan time.Time { return t.ch }
-func (t *mticker) Reset(time.Duration)    {}
-func (t *mticker) Stop()                  {}
+func (t *mticker) Chan() <-chan time.Time { t.calls.Add(1); return t.ch }
+func (t *mticker) Reset(d time.Duration) {
+	t.mu.Lock()
+	t.cur, t.base = d, t.fake.Now()
+	t.mu.Unlock()
+}
+func (t *mticker) Stop() {}
+
+func (t *mticker) period() time.Duration {
+	t.mu.Lock()
+	defer t.mu.Unlock()
+	return t.cur
+}
+
+// due: now - base >= iv * cur / orig   (exact)
+func (t *mticker) due(iv int64) bool {
+	t.mu.Lock()
+	defer t.mu.Unlock()
+	if iv <= 0 || t.orig <= 0 {
+		return true
+	}
+	el := big.NewInt(int64(t.fake.Now().Sub(t.base)))
+	lhs := new(big.Int).Mul(el, big.NewInt(int64(t.orig)))
+	rhs := new(big.Int).Mul(big.NewInt(iv), big.NewInt(int64(t.cur)))
+	return lhs.Cmp(rhs) >= 0
+}
+
+func (t *mticker) fired() {
+	t.mu.Lock()
+	t.base = t.fake.Now()
+	t.mu.Unlock()
+}
 
 type mclock struct {
 	*clockwork.FakeClock
@@ -68,7 +117,7 @@ type mclock struct {
 }
 
 func (c *mclock) NewTicker(d time.Duration) clockwork.Ticker {
-	t := &mticker{ch: make(chan time.Time)}
+	t := &mticker{ch: make(chan time.Time), fake: c.FakeClock, orig: d, cur: d, base: c.FakeClock.Now()}
 	c.mu.Lock()
 	c.tickers = append(c.tickers, t)
 	c.periods = append(c.periods, d)
@@ -79,11 +128,17 @@ func (c *mclock) NewTicker(d time.Duration) clockwork.Ticker {
 
 // ---------------------------------------------------------------------------- harness-owned pubsub
 
+type attempt struct {
+	msg    string
+	failed bool
+}
+
 type hpubsub struct {
-	mu   sync.Mutex
-	cb   pubsub.SubscriptionCallback
-	out  chan string
-	drop bool
+	mu       sync.Mutex
+	cb       pubsub.SubscriptionCallback
+	out      chan attempt
+	drop     bool
+	failNext int // the next failNext Publish calls return an error (`pubfail`)
 }
 
 type hsub struct{}
@@ -93,9 +148,17 @@ func (hsub) Close() {}
 func (ps *hpubsub) Publish(ctx context.Context, topic, message string) error {
 	ps.mu.Lock()
 	drop := ps.drop
+	fail := !drop && ps.failNext > 0
+	if fail {
+		ps.failNext--
+	}
 	ps.mu.Unlock()
+	if fail {
+		ps.out <- attempt{message, true}
+		return errors.New("verif: injected publish failure")
+	}
 	if !drop {
-		ps.out <- message
+		ps.out <- attempt{message, false}
 	}
 	return nil
 }
@@ -117,6 +180,7 @@ var _ pubsub.PubSub = (*hpubsub)(nil)
 
 type node struct {
 	id, ident, port string
+	iv              int64 // heartbeat schedule of the generator for this node (0: fire whenever asked)
 	p               *peer.RedisPubsubPeers
 	ps              *hpubsub
 	clk             *mclock
@@ -145,10 +209,13 @@ func (comp) NewCase(h []string) kit.Runner {
 			id:    kit.Dec(kit.KV(h, "id"+s)),
 			ident: kit.Dec(kit.KV(h, "ident"+s)),
 			port:  kit.KV(h, "port"+s),
+			iv:    atoi64(kit.KV(h, "iv"+s)),
 		})
 	}
 	return r
 }
+
+func atoi64(s string) int64 { n, _ := strconv.ParseInt(s, 10, 64); return n }
 
 func encList(xs []string) string {
 	e := make([]string, len(xs))
@@ -221,12 +288,12 @@ func (r *runner) node(tok string) (int, *node) {
 	return i, r.nodes[i]
 }
 
-func awaitPub(nd *node) (string, bool) {
+func awaitPub(nd *node) (attempt, bool) {
 	select {
-	case m := <-nd.ps.out:
-		return m, true
+	case a := <-nd.ps.out:
+		return a, true
 	case <-time.After(waitFor):
-		return "", false
+		return attempt{}, false
 	}
 }
 
@@ -239,7 +306,7 @@ func (r *runner) start(i int, nd *node) (string, bool) {
 		RedisIdentifier:      nd.ident,
 		PeerTimeout:          time.Second,
 	}
-	nd.ps = &hpubsub{out: make(chan string, 64)}
+	nd.ps = &hpubsub{out: make(chan attempt, 64)}
 	nd.clk = &mclock{FakeClock: r.fake, made: make(chan struct{}, 8)}
 	nd.met = &metrics.MockMetrics{}
 	nd.met.Start()
@@ -319,17 +386,44 @@ func (r *runner) Do(op []string) (string, bool) {
 		nd.clk.mu.Lock()
 		tk := nd.clk.tickers[0]
 		nd.clk.mu.Unlock()
+		if !tk.due(nd.iv) {
+			return "pub=notdue", true
+		}
+		c0 := tk.calls.Load()
 		select {
 		case tk.ch <- r.fake.Now():
 		case <-time.After(waitFor):
 			return "pub=stuck", true
 		}
-		m, ok := awaitPub(nd)
+		tk.fired()
+		a, ok := awaitPub(nd)
 		if !ok {
 			return "pub=none", true
 		}
-		r.msgs[op[2]] = m
-		return "pub=" + kit.Enc(m), true
+		// wait until the goroutine is back in its select: whatever it does after Publish (a Reset of
+		// the ticker, say) has happened by then
+		for dl := time.Now().Add(waitFor); tk.calls.Load() == c0 && time.Now().Before(dl); {
+			time.Sleep(20 * time.Microsecond)
+		}
+		per := fmt.Sprintf(" per=%d", int64(tk.period()))
+		if a.failed {
+			return "pub=failed" + per, true
+		}
+		r.msgs[op[2]] = a.msg
+		return "pub=" + kit.Enc(a.msg) + per, true
+	case "pubfail":
+		_, nd := r.node(op[1])
+		if nd == nil || !nd.running {
+			return "noop", true
+		}
+		k := 1
+		if len(op) > 2 {
+			k, _ = strconv.Atoi(op[2])
+		}
+		nd.ps.mu.Lock()
+		nd.ps.failNext = k
+		nd.ps.mu.Unlock()
+		return "ok", true
 	case "stop":
 		_, nd := r.node(op[1])
 		if nd == nil || !nd.running || len(op) != 3 {
@@ -338,12 +432,15 @@ func (r *runner) Do(op []string) (string, bool) {
 		nd.running = false
 		nd.spawned = false
 		close(nd.p.Done)
-		m, ok := awaitPub(nd)
+		a, ok := awaitPub(nd)
 		if !ok {
 			return "pub=none", true
 		}
-		r.msgs[op[2]] = m
-		return "pub=" + kit.Enc(m), true
+		if a.failed {
+			return "pub=failed", true
+		}
+		r.msgs[op[2]] = a.msg
+		return "pub=" + kit.Enc(a.msg), true
 	case "crash":
 		_, nd := r.node(op[1])
 		if nd == nil || !nd.running {
@@ -485,6 +582,7 @@ type gev struct {
 type gnode struct {
 	started, running bool
 	interval         int64
+	failNext         int
 }
 
 func (comp) Gen(r *kit.Rng, maxLen int, tier string) kit.Case {
@@ -514,6 +612,7 @@ func (comp) Gen(r *kit.Rng, maxLen int, tier string) kit.Case {
 	var hdr []string
 	ids := map[string]bool{}
 	sharedPrefix := r.Chance(33)
+	intervals := make([]int64, total)
 	for i := 0; i < total; i++ {
 		// instance ids of every length 1..40; in a third of the cases all ids share their first 8 bytes
 		id := plainID(r, idLen(r))
@@ -540,7 +639,11 @@ func (comp) Gen(r *kit.Rng, maxLen int, tier string) kit.Case {
 		if comma && i == total-1 {
 			ident = "a,b"
 		}
-		hdr = append(hdr, fmt.Sprintf("id%d=%s ident%d=%s port%d=%d", i, kit.Enc(id), i, kit.Enc(ident), i, 8081))
+		intervals[i] = refresh + int64(r.Intn(int(jit)))
+		if r.Chance(20) {
+			intervals[i] = refresh + jit - 1
+		}
+		hdr = append(hdr, fmt.Sprintf("id%d=%s ident%d=%s port%d=%d iv%d=%d", i, kit.Enc(id), i, kit.Enc(ident), i, 8081, i, intervals[i]))
 	}
 	mode := "chaos"
 	if fair {
@@ -563,6 +666,13 @@ func (comp) Gen(r *kit.Rng, maxLen int, tier string) kit.Case {
 			t = int64(r.Intn(2000)) * 1_000_000
 		}
 		push(gev{t: t, kind: "start", a: i})
+	}
+	// transient publish failures: finitely many, inside the churn window (or shortly after the start)
+	if r.Chance(30) {
+		for k := 1 + r.Intn(3); k > 0; k-- {
+			at := int64(r.Intn(int((churnEnd+2*refresh)/1_000_000)+1)) * 1_000_000
+			push(gev{t: at, kind: "pubfail", a: r.Intn(total), lab: 1 + r.Intn(2)})
+		}
 	}
 	label := 0
 	var ops []string
@@ -632,10 +742,7 @@ func (comp) Gen(r *kit.Rng, maxLen int, tier string) kit.Case {
 		case "start":
 			nd := &nodes[e.a]
 			nd.started, nd.running = true, true
-			nd.interval = refresh + int64(r.Intn(int(jit)))
-			if r.Chance(20) {
-				nd.interval = refresh + jit - 1
-			}
+			nd.interval = intervals[e.a]
 			lastChange = now
 			ops = append(ops, fmt.Sprintf("start %d", e.a))
 			push(gev{t: now + nd.interval, kind: "tick", a: e.a})
@@ -659,7 +766,12 @@ func (comp) Gen(r *kit.Rng, maxLen int, tier string) kit.Case {
 			}
 			label++
 			ops = append(ops, fmt.Sprintf("tick %d %d", e.a, label))
-			publish(label, e.a)
+			if nd.failNext > 0 { // this publish fails: nothing to deliver; the disturbance ends here
+				nd.failNext--
+				lastChange = now
+			} else {
+				publish(label, e.a)
+			}
 			push(gev{t: now + nd.interval, kind: "tick", a: e.a})
 			// a graceful stop hard on the heels of a refresh: the unregister can overtake the register
 			if now <= churnEnd && r.Chance(10) {
@@ -674,7 +786,11 @@ func (comp) Gen(r *kit.Rng, maxLen int, tier string) kit.Case {
 			ops = append(ops, fmt.Sprintf("stop %d %d", e.a, label))
 			nd.running = false
 			lastChange = now
-			publish(label, e.a)
+			if nd.failNext > 0 {
+				nd.failNext--
+			} else {
+				publish(label, e.a)
+			}
 		case "crash":
 			nd := &nodes[e.a]
 			if !nd.running {
@@ -692,6 +808,13 @@ func (comp) Gen(r *kit.Rng, maxLen int, tier string) kit.Case {
 				junk := []string{"Rhttp://old-format:8081", "", "R", ",", "Xhttp://h:1,00000000", "U,"}[r.Intn(6)]
 				ops = append(ops, fmt.Sprintf("inject %d %s", e.a, kit.Enc(junk)))
 			}
+		case "pubfail":
+			nd := &nodes[e.a]
+			if !nd.running {
+				continue
+			}
+			ops = append(ops, fmt.Sprintf("pubfail %d %d", e.a, e.lab))
+			nd.failNext = e.lab
 		case "probe":
 			// the adv above is the probe
 		}
@@ -699,7 +822,12 @@ func (comp) Gen(r *kit.Rng, maxLen int, tier string) kit.Case {
 		if !horizonSet {
 			pending := false
 			for _, x := range q {
-				if x.kind == "start" || x.kind == "stop" || x.kind == "crash" {
+				if x.kind == "start" || x.kind == "stop" || x.kind == "crash" || x.kind == "pubfail" {
+					pending = true
+				}
+			}
+			for _, nd := range nodes {
+				if nd.running && nd.failNext > 0 {
 					pending = true
 				}
 			}
